@@ -807,7 +807,7 @@ def urlencode_fn(
 ) -> str:
     """Implements the urlencode parser function."""
     arg0 = expander(args[0]) if args else ""
-    fmt = expander(args[1]) if len(args) > 1 else "QUERY"
+    fmt = expander(args[1]).strip() if len(args) > 1 else "QUERY"
     url = arg0.strip()
     if fmt == "PATH":
         return urllib.parse.quote(url, safe="")
@@ -1194,7 +1194,7 @@ def padleft_fn(
     """Implements the padleft parser function."""
     v = expander(args[0]) if args else ""
     cntstr = expander(args[1]).strip() if len(args) >= 2 else "0"
-    pad = expander(args[2]) if len(args) >= 3 else "0"
+    pad = expander(args[2]).strip() if len(args) >= 3 else "0"
     if not cntstr.isdigit():
         if cntstr.startswith("-") and cntstr[1:].isdigit():
             pass
@@ -1219,7 +1219,7 @@ def padright_fn(
     """Implements the padright parser function."""
     v = expander(args[0]) if args else ""
     cntstr = expander(args[1]).strip() if len(args) >= 2 else "0"
-    pad = expander(args[2]) if len(args) >= 3 else "0"
+    pad = expander(args[2]).strip() if len(args) >= 3 else "0"
     if not cntstr.isdigit():
         cnt = 0
         if cntstr.startswith("-") and cntstr[1:].isdigit():
@@ -1456,7 +1456,7 @@ def pos_fn(
 ) -> str:
     """Implements the #pos parser function."""
     arg0 = expander(args[0]).strip() if args else ""
-    arg1 = expander(args[1]) or " " if len(args) >= 2 else " "
+    arg1 = expander(args[1]).strip() or " " if len(args) >= 2 else " "
     offsetstr = expander(args[2]).strip() if len(args) >= 3 else ""
     if not offsetstr or not offsetstr.isdigit():
         offset = 0
@@ -1473,7 +1473,7 @@ def rpos_fn(
 ) -> str:
     """Implements the #rpos parser function."""
     arg0 = expander(args[0]).strip() if args else ""
-    arg1 = expander(args[1]) or " " if len(args) >= 2 else " "
+    arg1 = expander(args[1]).strip() or " " if len(args) >= 2 else " "
     offsetstr = expander(args[2]).strip() if len(args) >= 3 else ""
     if not offsetstr or not offsetstr.isdigit():
         offset = 0
@@ -1544,8 +1544,8 @@ def replace_fn(
 ) -> str:
     """Implements the #replace parser function."""
     arg0 = expander(args[0]).strip() if args else ""
-    arg1 = expander(args[1]) or " " if len(args) >= 2 else " "
-    arg2 = expander(args[2]) if len(args) >= 3 else ""
+    arg1 = expander(args[1]).strip() or " " if len(args) >= 2 else " "
+    arg2 = expander(args[2]).strip() if len(args) >= 3 else ""
     return arg0.replace(arg1, arg2)
 
 
@@ -1554,7 +1554,7 @@ def explode_fn(
 ) -> str:
     """Implements the #explode parser function."""
     arg0 = expander(args[0]).strip() if args else ""
-    delim = expander(args[1]) or " " if len(args) >= 2 else " "
+    delim = expander(args[1]).strip() or " " if len(args) >= 2 else " "
     posstr = expander(args[2]).strip() if len(args) >= 3 else ""
     limitstr = expander(args[3]).strip() if len(args) >= 4 else ""
     try:
